@@ -73,6 +73,15 @@ def catalogue(repl=REPL):
             if x["masterOf"] == "n3":
                 x["masterOf"] = "r%d" % (2 * repl + 1)
     mut("failover", promote)
+    def swap(d):
+        # a planned fail-over: master n1 and its replica r1 swap roles, nobody leaves (CLUSTER FAILOVER)
+        rg = by(d, "n1")["ranges"]
+        by(d, "n1").update(role="slave", masterOf="r1", ranges=[])
+        by(d, "r1").update(role="master", masterOf="", ranges=rg)
+        for x in d:
+            if x["masterOf"] == "n1":
+                x["masterOf"] = "r1"
+    mut("role-swap", swap)
     mut("replica-fail-flag", lambda d: by(d, "r1").update(fail=True))
     mut("replica-handshake", lambda d: by(d, "r2").update(handshake=True))
     mut("replica-noaddr", lambda d: by(d, "r1").update(noaddr=True))
@@ -504,6 +513,16 @@ def run_generic(pid, tier, seed):
             # filled or full when it happens
             blips = [blip_scenario("blip-%s-pre%d" % (v, pre), pre, v, rng) for pre, v in ([(1, "r1+r2"), (3, "r1+r2"), (2, "r2")] if q else
                                                                                       [(p, v) for p in (0, 1, 2, 3, 5, 8) for v in ("r1", "r2", "r1+r2")])]
+            # a planned fail-over (master and replica swap roles, nobody leaves): the former master is a replica now and must
+            # get its share of the reads (a replica redirects reads that come over a connection without READONLY)
+            cat20 = {c[0]: c for c in catalogue()}
+            sw = []
+            for k in range(2 if q else 10):
+                sc = spread_scenario("spread-after-swap-%d" % k, "reads", (0, 5460), 60, rng)
+                sc["steps"] = sc["steps"] + [step([st(op="topo", desc=cat20["role-swap"][1], kind=""), st(op="refresh")])] + \
+                    spread_scenario("x", "reads" if k % 2 == 0 else "set-get", (0, 5460), 240, rng)["steps"][1:]
+                sw.append(sc)
+            groups.append((dict(CFG), sw, "swap", {}))
             groups.append((dict(CFG, conns=2), blips, "blip2", {}))
             groups.append((dict(CFG), blips[:2 if q else 6], "blip1", {}))
         viol, other = [], {}
@@ -555,10 +574,11 @@ def run_generic(pid, tier, seed):
 UNIVERSE = ["127.0.0.1", "127.0.0.2", "127.0.0.3", "127.0.0.4"]
 
 
-def auth_scenario(sid, hist):
+def auth_scenario(sid, hist, universe=None):
     """hist: list of (enable, [ips], mode). After every edit, one client per address of the universe connects and sends a GET."""
     steps = []
     cn = 0
+    UNIVERSE = universe or globals()["UNIVERSE"]
     # start from a known state
     hist = [(False, [], "inplace")] + list(hist)
     for k, h in enumerate(hist):
@@ -610,6 +630,15 @@ def run_c18(tier, seed):
             scs.append(auth_scenario("auth-enable-line-removed-" + mode, [(True, [A], mode), (True, [A], mode, "noenable")]))
             scs.append(auth_scenario("auth-list-removed-" + mode, [(True, [A, B], mode), (True, [A, B], mode, "nolist")]))
             scs.append(auth_scenario("auth-commented-out-" + mode, [(True, [A], mode), (True, [A], mode, "commented"), (True, [B], mode)]))
+        # addresses whose text differs in one digit only (an octet of three digits with a zero in it next to its two-digit
+        # look-alikes): listing one of them admits that one and nobody else
+        alike = ["127.0.0.101", "127.0.0.11", "127.0.0.105", "127.0.0.15", "127.0.0.200", "127.0.0.20", "127.0.0.10", "127.0.0.100"]
+        for k, ips in enumerate([["127.0.0.11"], ["127.0.0.101"], ["127.0.0.105", "127.0.0.20"], ["127.0.0.15", "127.0.0.200"], ["127.0.0.10"], ["127.0.0.100", "127.0.0.101"],
+                                 alike[::2], alike[1::2]]):
+            if q and k % 2:
+                continue
+            scs.append(auth_scenario("auth-lookalike-%d" % k, [(True, ips, "inplace")], universe=alike))
+            scs.append(auth_scenario("auth-lookalike-add-%d" % k, [(True, [], "inplace"), (True, ips, "rename")], universe=alike))
         cfg = {"masters": 3, "mode": "step", "authIpDir": "auto"}
         r = common.replay_and_validate(cfg, scs, wd, "auth", spec="AuthTrace", cfgfile="AuthTrace.cfg", par=8)
         viol = [v for v in r["viol"] if v["prop"] in ("C18", "DEAD")]
